@@ -129,6 +129,8 @@ FAULT = {
 FAULT[('geometries', 'DaeUnsupportedError~')] = VALID['geometries'].replace(
     '<{p}input semantic="VERTEX" source="#{id}-v" offset="0"/><{p}p>{perm}</{p}p></{p}triangles>',
     '<{p}input semantic="VERTEX" source="#{id}-v" offset="0"/><{p}input semantic="WEIGHT_MAP" source="#{id}-p" offset="0"/><{p}p>{perm}</{p}p></{p}triangles>')
+# … and a transform without numbers in a NESTED node: reported by the outer node's loader (the exception travels up through Node.load), which keeps its node
+FAULT[('nodes', 'DaeMalformedError~')] = '<{p}node id="{id}"><{p}node id="{id}-in"><{p}translate>a b c</{p}translate></{p}node></{p}node>'
 FAULTS_OF = {}
 for (_l, _c) in FAULT:
     FAULTS_OF.setdefault(_l, []).append(_c)
@@ -1661,6 +1663,20 @@ def directed_search(ctx, z, c, where, reported):
         cand = dict(docs=k + 1, sched=sched)
         d, _ = judge(z, cand)
         ctx.count('directed-search')
+        if d is not None:
+            sig = 'iso:%s:%s' % (d['op'], d['field'])
+            if sig not in reported:
+                reported.add(sig)
+                report_iso(ctx, z, [cand], 0, d, reported)
+            return True
+    # what one operation writes may need many repetitions to matter (a counter that creeps up, a cache that fills): the writing
+    # operation again and again, then a victim
+    for rep in (12, 300, 300, 300, 300):
+        victim = gen_ops(rng, 6)
+        k = c['docs']
+        cand = dict(docs=k + 1, sched=prefix + [prefix[-1]] * rep + [[k, op] for op in victim])
+        d, _ = judge(z, cand)
+        ctx.count('directed-search:repeated')
         if d is not None:
             sig = 'iso:%s:%s' % (d['op'], d['field'])
             if sig not in reported:
